@@ -6,7 +6,7 @@
   order, RollApp creation, alias registration and trading, time advance, trading switches, reserved
   aliases), or for every single accepted operation on any state that satisfies the invariant.
 -/
-import DymVerif.Lemmas.DymNSResolve
+import DymVerif.Lemmas.DymNSCfg
 namespace DymVerif.C17
 open DymVerif DymVerif.DymNS
 
@@ -107,8 +107,8 @@ theorem owner_change_authorised {s s' : State} {op : Op} (hI : Inv s) (h : exec 
     | takeOver a dur pay c hna he hg => exact Or.inr ⟨he, hg, rfl⟩
     | transfer b he hso hb => exact Or.inl ⟨he, Or.inl rfl⟩
     | setController c he => exact absurd rfl hne
-    | updateResolve ch e p v cfgs he => exact absurd rfl hne
-    | updateDetails c cl cfgs contact he => exact absurd rfl hne
+    | updateResolve ch e p v cfgs he hcf => exact absurd rfl hne
+    | updateDetails c cl cfgs contact he hcf => exact absurd rfl hne
     | purchase a offer so hso hse he hna => exact Or.inl ⟨he, Or.inr (by simp [hso])⟩
     | complete a so b hso hb he ha => exact Or.inl ⟨he, Or.inr (by simp [hso])⟩
     | accept pfx id m bo hg hna hn he hso hb => exact Or.inl ⟨he, Or.inl rfl⟩
@@ -139,8 +139,8 @@ theorem address_records_by_controller {s s' : State} {op : Op} (hI : Inv s) (h :
     | takeOver a dur pay c hna he hg => rw [hexp] at he; cases he
     | transfer b he hso hb => exact absurd ho hb
     | setController c he => exact absurd rfl hc
-    | updateResolve ch e p v cfgs he => exact Or.inl rfl
-    | updateDetails c cl cfgs contact he => exact Or.inl rfl
+    | updateResolve ch e p v cfgs he hcf => exact Or.inl rfl
+    | updateDetails c cl cfgs contact he hcf => exact Or.inl rfl
     | purchase a offer so hso hse he hna => exact absurd ho hna
     | complete a so b hso hb he ha =>
       simp only [cleared] at ho
@@ -241,6 +241,49 @@ theorem resolve_agree_complete (p : Params) (t : Nat) (ops : List Op) (n : Name)
     (hl : getNameLive (run (State.start p t) ops) n = some d) (hc : c ∈ d.configs) :
     (c.path, n, prettyChain (run (State.start p t) ops) c.chain) ∈ reverse (run (State.start p t) ops) c.value c.chain :=
   reverse_complete (reachable_inv p t ops).idx hl hc
+
+/-- every reachable state also keeps the (chain, path) identities of each name's records distinct -/
+theorem reachable_cfgOK (p : Params) (t : Nat) (ops : List Op) : CfgOK (run (State.start p t) ops) := by
+  have h := init_inv
+  refine (run_inv_cfgOK ops (s := State.start p t)
+    { wfN := h.wfN, wfA := h.wfA, wfB := h.wfB, esc := h.esc, idx := h.idx, ali := h.ali, so := h.so, boK := h.boK } ?_).2
+  intro n d hd
+  simp [getName, State.start, State.init, NameStore.get] at hd
+
+/-- **resolve_agree_partial (sound half)**: in every reachable state whose params list no alias
+    under two chain-ids, every candidate `(path, n)` of a reverse resolution of `addr` on working
+    chain `wc` resolves forward — through the pretty handle reverse resolution prints — to exactly
+    `addr`, *provided* that, if the fallback stage produced it (`hFb`), the working chain is a
+    RollApp with a declared bech32 prefix, `addr` carries that prefix, and the name has no explicit
+    record for that RollApp.  The two counterexamples below violate the last and the second proviso. -/
+theorem resolve_agree_partial (p : Params) (t : Nat) (ops : List Op)
+    (hPW : ParamsWF (run (State.start p t) ops).p) (addr : Addr) (wc : Chain) (path : Path) (n : Name)
+    (hm : (path, n) ∈ reverseRaw (run (State.start p t) ops) addr wc)
+    (hFb : (revByConfig (run (State.start p t) ops) addr wc).isEmpty = true →
+      wc ≠ 0 ∧ rollappHrp (run (State.start p t) ops) wc ≠ 0 ∧ addr.hrp = rollappHrp (run (State.start p t) ops) wc ∧
+        ∀ d, getNameLive (run (State.start p t) ops) n = some d → findConfig d wc 0 = none) :
+    resolve (run (State.start p t) ops) path n (prettyChain (run (State.start p t) ops) wc) = some addr := by
+  have hI := reachable_inv p t ops
+  have hC := reachable_cfgOK p t ops
+  have hU : ∀ d, getNameLive (run (State.start p t) ops) n = some d → CfgUniq d :=
+    fun d hl => cfgUniq_of_nodup (hC n d (getNameLive_some hl).1)
+  have hH := handle_roundtrip wc hPW hI.ali
+  have hP : ∀ c, prettyChain (run (State.start p t) ops) wc = .chain c → c = wc := fun c h => prettyChain_chain h
+  unfold reverseRaw at hm
+  by_cases he : (revByConfig (run (State.start p t) ops) addr wc).isEmpty = true
+  · obtain ⟨hwc, hpre, hfmt, hNo⟩ := hFb he
+    simp only [he, Bool.not_true, Bool.false_eq_true, if_false] at hm
+    split at hm
+    · cases hm
+    · rename_i hr
+      have hR : isRollapp (run (State.start p t) ops) wc = true := by
+        cases hx : isRollapp (run (State.start p t) ops) wc with
+        | true => rfl
+        | false => exact absurd ⟨hwc, by simp [hx]⟩ hr
+      exact revByFallback_sound_partial hU hH hP hwc hR hpre hfmt hNo hm
+  · have : (!(revByConfig (run (State.start p t) ops) addr wc).isEmpty) = true := by simpa using he
+    simp only [this, if_true] at hm
+    exact revByConfig_sound hU hH hP hm
 
 def cxParams : Params :=
   { tradeName := true, tradeAlias := true, grace := 100, soDur := 10, minOffer := 1, bidInc := 0,
